@@ -8,7 +8,7 @@ from hypothesis import strategies as st
 
 from .. import gen, model
 from ..cliutil import run_cli
-from ..core import Ctx, Violation, call, check, must_raise, per_shard, run_given
+from ..core import Ctx, Violation, call, check, must_raise, per_shard, run_given, given_part, machine_part, run_parts
 
 PID = "C05"
 LEVEL = "exploration"
@@ -599,12 +599,10 @@ def replay(ctx: Ctx, case):
 
 def run(ctx: Ctx):
     q = ctx.tier == "quick"
-    if not run_given(ctx, "records", api_cases(), check_records, per_shard(ctx, 4000 if q else 100000)):
-        return
-    if not run_given(ctx, "pixels", pixel_cases(), check_pixels, per_shard(ctx, 1600 if q else 30000)):
-        return
-    if not run_given(ctx, "cli_pairs", cli_pairs_cases(), check_cli_pairs, per_shard(ctx, 160 if q else 3200), batch=20):
-        return
-    if not run_given(ctx, "cli_load", cli_load_cases(), check_cli_load, per_shard(ctx, 160 if q else 3200), batch=20):
-        return
-    run_given(ctx, "tabix", tabix_cases(), check_tabix, per_shard(ctx, 96 if q else 2400), batch=12)
+    parts = []
+    parts.append(given_part(ctx, "records", api_cases(), check_records, per_shard(ctx, 4000 if q else 100000)))
+    parts.append(given_part(ctx, "pixels", pixel_cases(), check_pixels, per_shard(ctx, 1600 if q else 30000)))
+    parts.append(given_part(ctx, "cli_pairs", cli_pairs_cases(), check_cli_pairs, per_shard(ctx, 160 if q else 3200), batch=20))
+    parts.append(given_part(ctx, "cli_load", cli_load_cases(), check_cli_load, per_shard(ctx, 160 if q else 3200), batch=20))
+    parts.append(given_part(ctx, "tabix", tabix_cases(), check_tabix, per_shard(ctx, 96 if q else 2400), batch=12))
+    run_parts(ctx, parts)
